@@ -1116,3 +1116,67 @@ def paging_api(rng, name):
     api.options = ["transport=grpc+rest", "autogen-snippets=false"]
     api.info.update(pkg=pkg, version=ver, ns=["vp"], name=name, host=f"{name}.googleapis.com")
     return api
+
+
+def lro_api(rng, name, broken=None):
+    """operation_info type-resolution matrix (C08).  broken in {None, 'no_response', 'no_metadata', 'both_empty'}
+    produces a request that must be rejected."""
+    api = Api(name)
+    tags = api.tags
+    ver = "v1"
+    pkg = f"vp.{name}.{ver}"
+    P = "." + pkg
+    dirp = f"vp/{name}/{ver}"
+    fname_other = rng.choice(["progress", "operation", "operation_async", "results", "pagers", "common"])
+    f_imp = File(f"{dirp}/imported_types.proto", pkg, deps=list(STD_DEPS))
+    f_not = File(f"{dirp}/{fname_other}.proto", pkg, deps=list(STD_DEPS))
+    f = File(f"{dirp}/{name}.proto", pkg, deps=list(STD_DEPS) + [f_imp.pb.name])
+    api.add(f_imp)
+    api.add(f_not)
+    api.add(f)
+    tags.add("otherfile:" + fname_other)
+
+    def mk(fl, nm):
+        m = fl.message(nm)
+        m.field("name", "string")
+        m.field("percent", "int32")
+        m.field("note", "string")
+        return m
+
+    mk(f, "SameResult")
+    mk(f, "SameMeta")
+    mk(f_imp, "ImportedResult")
+    mk(f_imp, "ImportedMeta")
+    mk(f_not, "FarResult")
+    mk(f_not, "FarMeta")
+    q = f.message("StartRequest")
+    q.field("name", "string")
+    q.field("payload", "string")
+    s = f.service("Jobs", host=f"{name}.googleapis.com")
+    where = {"same": ("SameResult", "SameMeta"), "imported": ("ImportedResult", "ImportedMeta"), "far": ("FarResult", "FarMeta")}
+    n = 0
+    for wr in ["same", "imported", "far", "empty"]:
+        for wm in ["same", "imported", "far"]:
+            if rng.random() < 0.45:
+                continue
+            qual_r, qual_m = rng.random() < 0.5, rng.random() < 0.5
+            if wr == "empty":
+                rt_ = "google.protobuf.Empty"
+            else:
+                rt_ = (pkg + "." if qual_r else "") + where[wr][0]
+            mt_ = (pkg + "." if qual_m else "") + where[wm][1]
+            s.rpc(f"Start{n}", P + ".StartRequest", ".google.longrunning.Operation",
+                  http={"post": f"/v1/{{name=jobs/*}}:start{n}"}, body="*", lro=(rt_, mt_))
+            api.info.setdefault("lro", {})[f"Start{n}"] = {"response": wr, "metadata": wm, "qualified": [qual_r, qual_m]}
+            tags.update([f"resp:{wr}:{'fq' if qual_r else 'rel'}", f"meta:{wm}:{'fq' if qual_m else 'rel'}"])
+            n += 1
+    # Operation-returning method without the annotation: raw Operation
+    s.rpc("RawOp", P + ".StartRequest", ".google.longrunning.Operation", http={"post": "/v1/{name=jobs/*}:raw"}, body="*")
+    s.rpc("Plain", P + ".StartRequest", P + ".SameResult", http={"get": "/v1/{name=jobs/*}"})
+    if broken:
+        lro = {"no_response": ("", "SameMeta"), "no_metadata": ("SameResult", ""), "both_empty": ("", "")}[broken]
+        s.rpc("Broken", P + ".StartRequest", ".google.longrunning.Operation", http={"post": "/v1/{name=jobs/*}:broken"}, body="*", lro=lro)
+        tags.add("broken:" + broken)
+    api.options = ["transport=grpc", "autogen-snippets=false"]
+    api.info.update(pkg=pkg, version=ver, ns=["vp"], name=name, host=f"{name}.googleapis.com")
+    return api
